@@ -214,6 +214,13 @@ func (s *Synchronizer) OnRemoteTimeout(timeout hotstuff.TimeoutMsg) {
 		s.logger.Infof("View timeout signature could not be verified: %v", err)
 		return
 	}
+	// The view signature must be the sender's own. A (valid) signature of another replica relayed
+	// under this sender's ID would collide with that replica's own timeout when the signatures
+	// are combined, and the quorum for the view would be lost.
+	if signers := timeout.ViewSignature.Participants(); signers.Len() != 1 || !signers.Contains(timeout.ID) {
+		s.logger.Infof("View timeout signature was not created by the sender %d", timeout.ID)
+		return
+	}
 	s.logger.Debug("OnRemoteTimeout (advancing view): ", timeout)
 	s.advanceView(timeout.SyncInfo)
 
